@@ -72,7 +72,7 @@ pub fn mk_cfg(it: &DecPlanItem, or: &Oracles, tag_chunk: &'static str, tag_singl
         k: it.k,
         or: or.clone(),
         threads,
-        max_states: 6_000_000,
+        max_states: 4_000_000,
         tag_chunk,
         tag_single,
         few_caps: it.few_caps,
@@ -428,4 +428,33 @@ pub fn run_enc_plan(items: Vec<EncPlanItem>, or: &EOracles, tag_chunk: &'static 
         vios.merge(o.vios);
     }
     (stats, vios)
+}
+
+/// Explorer configurations that are part of the C17 corpus: the converters whose kernels differ
+/// between build configurations, with ASCII runs long enough for the double-stride paths.
+pub fn c17_plans(tier: Tier) -> (Vec<DecPlanItem>, Vec<EncPlanItem>) {
+    let q = tier == Tier::Quick;
+    let mut d = vec![];
+    let denc: Vec<&'static str> = if q { vec!["UTF-8", "UTF-16LE", "windows-1252", "x-user-defined", "Shift_JIS", "gb18030"] } else { QUICK_ENCS.to_vec() };
+    for e in denc {
+        for s in [Sink::Utf8, Sink::Utf16] {
+            d.push(item(e, s, false, BomMode::Off, 2, &[16, 48]));
+            if !q {
+                d.push(item(e, s, true, BomMode::Off, 2, &[17, 33]));
+            }
+        }
+    }
+    let mut en = vec![];
+    let eenc: Vec<&'static str> = if q { vec!["UTF-8", "windows-1252", "Shift_JIS", "EUC-KR", "gb18030", "Big5", "ISO-2022-JP", "x-user-defined", "EUC-JP"] } else { spec::NAMES.to_vec() };
+    for e in eenc {
+        for source in [Source::Utf8, Source::Utf16] {
+            for repl in [false, true] {
+                en.push(EncPlanItem { enc: e, source, sink: ESink::Slice, repl, k: 2, runs: vec![16, 48, 49], small: true });
+                if !q {
+                    en.push(EncPlanItem { enc: e, source, sink: ESink::Slice, repl, k: 1, runs: vec![31, 63, 64], small: false });
+                }
+            }
+        }
+    }
+    (d, en)
 }
